@@ -377,6 +377,12 @@ func init() {
 	// JSON-schema validation of service documents (gojsonschema: reflection): the documents a harness
 	// submits are taken to conform; the native replay of every cover witness runs the real validation
 	externals["mods.irisnet.org/modules/service/types.validateDocument"] = func(fr *frame, args []value) value { return iface{} }
+	externals["mods.irisnet.org/modules/service/types.ValidateServiceSchemas"] = func(fr *frame, args []value) value {
+		if s, ok := args[0].(string); ok && len(s) == 0 {
+			return fr.i.mkError("schemas missing")
+		}
+		return iface{}
+	}
 	externals["(*github.com/cosmos/cosmos-sdk/types.EventManager).EmitTypedEvent"] = func(fr *frame, args []value) value { return iface{} }
 	externals["(*github.com/cosmos/cosmos-sdk/types.EventManager).EmitTypedEvents"] = func(fr *frame, args []value) value { return iface{} }
 	// JSON renderings only feed events and logs
@@ -384,6 +390,7 @@ func init() {
 		return tuple{bytesToValue([]byte("{}")), iface{}}
 	}
 	registerFmt()
+	registerJSON()
 	registerErrors()
 }
 
